@@ -48,8 +48,8 @@ def plan(tier, seed):
                       'mode': rnd.choice(['probe_fixed', 'probe_adaptive', 'probe_adaptive', 'euler', 'scipy'])})
     # long runs (more history records than the initial capacity of the history buffer) of linear DDEs, real and complex valued,
     # against a hand-written loop that reads the delayed value from the trajectory computed so far
-    for _ in range(8 if tier == 'quick' else 120):
-        cases.append({'family': 'long_history', 'cseed': rnd.randrange(1 << 30), 'mode': 'long_history'})
+    for i_ in range(8 if tier == 'quick' else 120):
+        cases.append({'family': 'long_history', 'cseed': rnd.randrange(1 << 30), 'mode': 'long_history', 'cplx': i_ % 2 == 0})
     opened = open_risks(PID)
     k = 10 if tier == 'quick' else 80
     for feat in FOCUS:
@@ -229,6 +229,8 @@ def run_long_history(case, ctx):
     from pyrates import OperatorTemplate, NodeTemplate, CircuitTemplate
     rnd = random.Random(case['cseed'])
     cplx = rnd.random() < 0.6
+    if 'cplx' in case:
+        cplx = bool(case['cplx'])        # (set by the plan, so that every run sees both kinds)
     mk = (lambda: complex(round(rnd.uniform(-0.9, 0.9), 3), round(rnd.uniform(-2.0, 2.0), 3))) if cplx else (lambda: round(rnd.uniform(-0.9, 0.9), 3))
     z0, c, k = mk(), mk(), mk()
     if cplx:
